@@ -259,10 +259,11 @@ namespace Mont
 def u? (P : EPt F) : Option F :=
   if (1 : F) - P.y = 0 then none else some (((1 : F) + P.y) * ((1 : F) - P.y)⁻¹)
 
-/-- `v = c · (1 + y) / (x - x·y)`; undefined for `x = 0` -/
+/-- `v = c · (1 + y) / (x - x·y)`; `x - x·y = 0` holds on the curve only for the identity (no affine
+Montgomery coordinates) and for the point of order 2, `(0, -1)`, which is `(u, v) = (0, 0)` -/
 def v? (c : F) (P : EPt F) : Option F :=
   let w := P.x - P.x * P.y
-  if w = 0 then none else some (((1 : F) + P.y) * w⁻¹ * c)
+  if w = 0 then (if P = E.zero then none else some 0) else some (((1 : F) + P.y) * w⁻¹ * c)
 
 /-- `none` models the encoder's panic -/
 def encodeCompressed (io : FieldIO F) (len : Nat) (P : EPt F) : Option (List Nat) :=
